@@ -181,6 +181,7 @@ def run_mutant(name, prop, patch, seed, tier='quick'):
         env['VERIF_REPO'] = d
         env['VERIF_OUT'] = outd
         env['VERIF_SEED'] = str(seed)
+        env.setdefault('VERIF_MAX_VIOLATIONS', '1')      # only the verdict counts here: stop at the first deviation
         t0 = time.time()
         p = subprocess.run([PY, os.path.join(HERE, 'cli.py'), 'check', prop, '--tier', tier], env=env, cwd=HERE, capture_output=True, text=True, timeout=3600)
         dt = time.time() - t0
